@@ -182,6 +182,13 @@ class Interp:
                 return a - b
             if op is ast.Mult:
                 return a * b
+            if op in (ast.LShift, ast.RShift, ast.FloorDiv, ast.Mod, ast.Pow, ast.BitXor) and all(isinstance(x, int) and not isinstance(x, bool) for x in (a, b)):
+                if op is ast.Pow and not 0 <= b <= 4096 or op in (ast.LShift, ast.RShift) and not 0 <= b <= 4096:
+                    raise ShapeError(f'exponent / shift out of the modelled range in `{ast.unparse(e)}`')
+                if op in (ast.FloorDiv, ast.Mod) and b == 0:
+                    raise ZeroDivisionError(ast.unparse(e))
+                return {ast.LShift: lambda: a << b, ast.RShift: lambda: a >> b, ast.FloorDiv: lambda: a // b, ast.Mod: lambda: a % b,
+                        ast.Pow: lambda: a ** b, ast.BitXor: lambda: a ^ b}[op]()
             raise ShapeError(f'operator in `{ast.unparse(e)}`')
         if isinstance(e, ast.UnaryOp):
             v = self.ev(e.operand, env)
